@@ -13,7 +13,7 @@ Read from the ast of /repo's CURRENT source on every run (fail closed: anything 
         once) and that nothing else is done to it before it is handed to the caller
   sigpyproc/base.py, block.py, timeseries.py
     * for every streaming writer (invert_freq, apply_channel_mask, downsample, extract_samps, extract_chans,
-      extract_bands, requantize, remove_zerodm, subband, FilterbankBlock.to_file, TimeSeries.to_tim):
+      extract_bands, requantize, remove_zerodm, subband, FilterbankBlock.to_file, TimeSeries.to_tim, FourierSeries.to_spec):
         the writer calls made on the output object in syntactic order, split into before / inside / after the loop
         over self.read_plan(...); that the output object and the output path are used for nothing else
         (no seek / truncate / re-open / second header write / edit_header / open(path))
@@ -317,6 +317,11 @@ def _prep_outfile(repo):
     call = ctor[0].value
     if len(call.args) != 1 or _u(call.args[0]) != "filename":
         raise Unsupported(f"{rel}: prep_outfile: FileWriter is not opened on `filename`: {_u(call)}")
+    # the output path is used for nothing but the FileWriter (no unlink / open / rename / edit_header on it before or after)
+    for n in ast.walk(fn):
+        if isinstance(n, ast.Name) and n.id == "filename" and n is not call.args[0]:
+            raise Unsupported(f"{rel}: prep_outfile uses the output path for something else than the FileWriter (line {n.lineno})")
+    _check_forbidden(fn, f"{rel}: prep_outfile")
     mode = None
     for k in call.keywords:
         if k.arg == "mode":
@@ -399,6 +404,23 @@ def _check_forbidden(fn, where):
                 raise Unsupported(f"{where}: call of {t} in a writer")
 
 
+def _check_loop_exits(loop_st, where):
+    """the model takes ONE pass through the loop body per block of the read plan, every writer call of the body made in each pass:
+    a `continue` / `break` / `return` anywhere inside the loop (also nested in an `if`, or in the inner loop over the outputs)
+    skips writes the model would count, and the model has no way to represent that -> not supported.
+    (`raise` is allowed: the call dies there, which is a crash point of the trace.)"""
+    for st in loop_st.body:
+        for n in ast.walk(st):
+            if isinstance(n, (ast.Continue, ast.Break, ast.Return)):
+                kind = type(n).__name__.lower()
+                raise Unsupported(f"{where}: `{kind}` inside the read_plan loop (line {n.lineno}): a pass through the loop may skip its "
+                                  "write, which the one-block-per-pass model does not represent")
+            if isinstance(n, (ast.FunctionDef, ast.AsyncFunctionDef, ast.Lambda, ast.Yield, ast.YieldFrom, ast.Await)):
+                raise Unsupported(f"{where}: {type(n).__name__} inside the read_plan loop (line {n.lineno})")
+    if loop_st.orelse:
+        raise Unsupported(f"{where}: the read_plan loop has an else clause")
+
+
 def _check_path_uses(fn, namevar, where, extra_ok=()):
     """the output path variable may only be defaulted, handed to prep_outfile and returned"""
     par = _parents(fn)
@@ -447,6 +469,7 @@ def _site_single(fn, where):
             nloops += 1
             if _mentions(s.iter, {var}) or s.orelse:
                 raise Unsupported(f"{where}: loop header/else touches the output")
+            _check_loop_exits(s, where)
             for b in s.body:
                 c = _wcall(b, var, where) if not isinstance(b, (ast.If, ast.For, ast.While, ast.With, ast.Try)) else None
                 if c is None and _mentions(b, {var}):
@@ -456,6 +479,8 @@ def _site_single(fn, where):
         elif isinstance(s, ast.Return):
             if _u(s.value) != namevar:
                 raise Unsupported(f"{where}: returns {_u(s.value)}, not the output path")
+            if s is not body[-1]:
+                raise Unsupported(f"{where}: `return` before the end of the writer (line {s.lineno}): the statements after it never run")
         else:
             if isinstance(s, (ast.If, ast.For, ast.While, ast.With, ast.Try)):
                 raise Unsupported(f"{where}: compound statement after prep_outfile: {_u(s)[:60]}")
@@ -593,6 +618,7 @@ def _site_multi(fn, where):
         raise Unsupported(f"{where}: the ExitStack is used for something else")
     if not _is_plan_loop(loop_st) or loop_st.orelse or _mentions(loop_st.iter, {lst}):
         raise Unsupported(f"{where}: second statement of the with-body is not the read_plan loop")
+    _check_loop_exits(loop_st, where)
     loop = []
     inner = [b for b in loop_st.body if _mentions(b, {lst})]
     if len(inner) != 1 or not isinstance(inner[0], ast.For) or _u(inner[0].iter) != f"enumerate({lst})" or inner[0].orelse:
@@ -691,6 +717,7 @@ def _sites(repo):
     jobs = [(n, fb, rel, _site_single) for n in SINGLE] + [(n, fb, rel, _site_multi) for n in MULTI]
     jobs.append(("to_file", _cls(_parse(repo, "sigpyproc/block.py"), "FilterbankBlock", "sigpyproc/block.py"), "sigpyproc/block.py", _site_oneshot))
     jobs.append(("to_tim", _cls(_parse(repo, "sigpyproc/timeseries.py"), "TimeSeries", "sigpyproc/timeseries.py"), "sigpyproc/timeseries.py", _site_oneshot))
+    jobs.append(("to_spec", _cls(_parse(repo, "sigpyproc/fourierseries.py"), "FourierSeries", "sigpyproc/fourierseries.py"), "sigpyproc/fourierseries.py", _site_oneshot))
     for name, cls, r, fnc in jobs:
         try:
             fn = _method(cls, name, r)
@@ -704,7 +731,77 @@ def _sites(repo):
     for f in fb.body:
         if isinstance(f, ast.FunctionDef) and f.name not in known and any(_is_prep(n) for n in ast.walk(f)):
             errors.append(f"{rel}: Filterbank.{f.name} calls prep_outfile but is not a known streaming writer")
+    # closure over the whole package: every function that prepares an output (prep_outfile) or constructs a FileWriter itself
+    modelled = {(r, cls.name, name) for name, cls, r, _f in jobs} | {("sigpyproc/header.py", "Header", "prep_outfile")}
+    try:
+        for r, cname, fname, line, what in _output_creators(repo):
+            if (r, cname, fname) not in modelled:
+                errors.append(f"{r}:{line}: {cname + '.' if cname else ''}{fname} creates an output file ({what}) but is not among the "
+                              "modelled writer sites: nothing is proved about what it leaves on disk between its writes")
+    except Unsupported as e:
+        errors.append(str(e))
     return out, errors
+
+
+def _is_output_creation(n):
+    """a call that opens an output in SIGPROC form: <anything>.prep_outfile(...) or FileWriter(...) / <module>.FileWriter(...)"""
+    if not isinstance(n, ast.Call):
+        return None
+    f = n.func
+    if isinstance(f, ast.Attribute) and f.attr == "prep_outfile":
+        return "prep_outfile"
+    if (isinstance(f, ast.Name) and f.id == "FileWriter") or (isinstance(f, ast.Attribute) and f.attr == "FileWriter"):
+        return "FileWriter"
+    return None
+
+
+def _output_creators(repo):
+    """(file, class or '', function, line, what) for every function / method / module body of the package sigpyproc that calls
+    prep_outfile or constructs a FileWriter (nested functions are attributed to the outermost function; a reference to either
+    name that is not a call -- an alias such as `mk = self.header.prep_outfile`, getattr(..., 'prep_outfile') -- is not supported)"""
+    import os
+    root = f"{repo}/sigpyproc"
+    if not os.path.isdir(root):
+        raise Unsupported("sigpyproc/: package directory not found")
+    found = []
+    for dp, dns, fns in sorted(os.walk(root)):
+        dns.sort()
+        for fnm in sorted(fns):
+            if not fnm.endswith(".py"):
+                continue
+            rel = os.path.relpath(os.path.join(dp, fnm), repo)
+            mod = _parse(repo, rel)
+            par = _parents(mod)
+            for n in ast.walk(mod):
+                what = _is_output_creation(n)
+                aliased = None
+                if what is None:
+                    if isinstance(n, ast.Attribute) and n.attr in ("prep_outfile", "FileWriter") and not (isinstance(par.get(n), ast.Call) and par[n].func is n):
+                        aliased = n.attr
+                    elif isinstance(n, ast.Name) and n.id == "FileWriter" and isinstance(n.ctx, ast.Load) \
+                            and not (isinstance(par.get(n), ast.Call) and par[n].func is n):
+                        # annotations (-> FileWriter) and isinstance checks are not aliases
+                        q = par.get(n)
+                        if not (isinstance(q, (ast.FunctionDef, ast.arg, ast.AnnAssign)) or (isinstance(q, ast.Call) and _u(q.func) == "isinstance")):
+                            aliased = n.id
+                    elif isinstance(n, ast.Constant) and n.value in ("prep_outfile", "FileWriter") and isinstance(par.get(n), ast.Call) \
+                            and _u(par[n].func) in ("getattr", "setattr"):
+                        aliased = n.value
+                    if aliased is None:
+                        continue
+                # outermost enclosing function and its class
+                fn, cls, q = None, None, par.get(n)
+                while q is not None:
+                    if isinstance(q, (ast.FunctionDef, ast.AsyncFunctionDef)):
+                        fn, cls = q, None
+                    elif isinstance(q, ast.ClassDef) and fn is not None and cls is None:
+                        cls = q
+                    q = par.get(q)
+                if aliased is not None:
+                    raise Unsupported(f"{rel}:{n.lineno}: {aliased} is referenced without being called (alias / getattr): "
+                                      "the writers reachable through it cannot be enumerated")
+                found.append((rel, cls.name if cls else "", fn.name if fn else "<module>", n.lineno, what))
+    return found
 
 
 # ------------------------------------------------------------------------------------------------ D/E. reader arithmetic
